@@ -197,3 +197,139 @@ func c01r8(c *Ctx) {
 		}
 	}
 }
+
+// c01r11: "a return-after-error refund restores the sender": besides the gate at every write (R10), nothing else below the
+// transfer functions may refuse a refund because the token is paused — every consultation of the pause handler is made only
+// when the input's return-after-error flag is not set. A pause test hoisted in front of the credit loop ("fail fast") has no
+// such exemption: the refund of a transfer bounced by a paused token is refused while the token is still paused, and what
+// the sender shard debited is never restored.
+func c01r11(c *Ctx) {
+	const rule = "C01-R11"
+	c.Rule(rule, "below the transfer functions the pause handler is consulted only when the input's return-after-error flag is not set (a refund is never refused for a pause)", 1)
+	regs := c.P.RegByName()
+	isPausedCall := func(in ssa.Instruction) (string, bool) {
+		if ci, ok := in.(ssa.CallInstruction); ok && InvokeName(ci) == "ESDTPauseHandler.IsPaused" {
+			return "IsPaused", true
+		}
+		return "", false
+	}
+	n := 0
+	for _, name := range []string{"ESDTTransfer", "ESDTNFTTransfer", "MultiESDTNFTTransfer"} {
+		r, ok := regs[name]
+		if !ok || r.Entry == nil {
+			c.Anchor(rule, "entry point of "+name)
+			continue
+		}
+		x, _ := entryContext(r.Entry)
+		flagTerm := "*" + x.in + ".VMInput.ReturnCallAfterError"
+		notFlag := func(f Fact) bool { return !f.Lin && !f.Pos && f.Atom == "cond:"+flagTerm }
+		seen := map[string]int{}
+		for _, s := range c.P.EffectSites(r.Entry, "ispaused", isPausedCall) {
+			n++
+			construct := name + ": IsPaused consulted in " + s.Chain()
+			seen[construct]++
+			if k := seen[construct]; k > 1 {
+				construct += fmt.Sprintf(" #%d", k)
+			}
+			if _, where, ok := s.CutInContext(notFlag, nil); ok {
+				c.OK(rule, FuncName(s.In.Parent()), construct, c.P.InstrPos(s.In), "only reached with the return-after-error flag unset (tested in "+where+")")
+			} else {
+				c.FailX(Oblig{Rule: rule, Func: FuncName(s.In.Parent()), Construct: construct, Pos: c.P.InstrPos(s.In), Kind: "violation",
+					Detail:   "the pause handler is consulted on a path on which the input's return-after-error flag may be set: a refund delivered while the token is (still) paused can be refused here, so a transfer that was debited on the sender shard and bounced at the destination is never credited back",
+					Path:     s.witnessPath(notFlag),
+					Expected: "every pause test below the transfer functions sits behind `if ReturnCallAfterError { skip }` (the freeze/pause gate does that)"})
+			}
+		}
+	}
+	if n == 0 {
+		c.Anchor(rule, "a consultation of the pause handler below the transfer functions")
+	}
+}
+
+// c01r12: "credits exactly that quantity": the existing holding a credit adds is the *stored* one. A reader of token entries
+// may hand back a fresh, empty entry ("nothing held yet") only on paths on which nothing was found under the key (the
+// storage read failed or returned no bytes); an empty entry returned although bytes are stored — under a sentinel error
+// the credit path tolerates, say — makes the credit overwrite the holding instead of adding to it.
+func c01r12(c *Ctx) {
+	const rule = "C01-R12"
+	c.Rule(rule, "a reader of token entries reports an empty holding only when nothing is stored under the key", 1)
+	n := 0
+	for _, fn := range c.P.Funcs {
+		if !c.P.InPkgs(fn, "builtInFunctions") || len(fn.Blocks) == 0 {
+			continue
+		}
+		res := fn.Signature.Results()
+		if res.Len() == 0 || !strings.HasSuffix(res.At(0).Type().String(), "esdt.ESDigitalToken") {
+			continue
+		}
+		// the storage read made by this function itself
+		var read *ssa.Call
+		for _, b := range fn.Blocks {
+			for _, in := range b.Instrs {
+				if call, ok := in.(*ssa.Call); ok && InvokeName(call) == "AccountDataHandler.RetrieveValue" {
+					read = call
+				}
+			}
+		}
+		if read == nil {
+			continue
+		}
+		e := c.P.Env(fn)
+		dataT := e.Term(read) + "#0"
+		nothingStored := func(f Fact) bool {
+			if f.Lin {
+				// len(data) <= 0
+				return len(f.LE.c) == 1 && f.LE.k == 0 && f.LE.c["len("+dataT+")"] == -1
+			}
+			if !f.Pos && f.Call == ssa.CallInstruction(read) && strings.HasPrefix(f.Atom, "ok:") {
+				return true
+			}
+			return f.Pos && f.Atom == "zero(len("+dataT+"))"
+		}
+		for _, r := range returnsOf(fn) {
+			if len(r.Results) == 0 {
+				continue
+			}
+			al, ok := retval(r, 0).(*ssa.Alloc)
+			if !ok {
+				continue // nil, or an entry obtained elsewhere
+			}
+			// filled by a decode that lies on every path to this return?
+			filled := false
+			if al.Referrers() != nil {
+				for _, ref := range *al.Referrers() {
+					mi, ok := ref.(*ssa.MakeInterface)
+					if !ok || mi.Referrers() == nil {
+						continue
+					}
+					for _, rr := range *mi.Referrers() {
+						ci, ok := rr.(ssa.CallInstruction)
+						if !ok || !ci.Common().IsInvoke() || ci.Common().Method.Name() != "Unmarshal" {
+							continue
+						}
+						ub := ci.(ssa.Instruction).Block()
+						if ub == r.Block() || ub.Dominates(r.Block()) {
+							filled = true
+						}
+					}
+				}
+			}
+			if filled {
+				continue
+			}
+			n++
+			construct := fn.Name() + ": empty entry returned @b" + fmt.Sprint(r.Block().Index)
+			if fs, ok := e.CutAt(r, nothingStored, nil); ok {
+				c.OK(rule, FuncName(fn), construct, c.P.InstrPos(r), "only when nothing is stored: "+fs[0].String())
+			} else {
+				c.FailX(Oblig{Rule: rule, Func: FuncName(fn), Construct: construct, Pos: c.P.InstrPos(r), Kind: "violation",
+					Detail:   "the reader can hand back a fresh, empty entry although bytes are stored under the key: a credit that adds \"the existing holding\" then adds nothing and saves over what the account held (the quantity stored there is destroyed)",
+					Path:     pathAvoidingPred(e, r.Block(), nothingStored),
+					Expected: "an empty entry only behind `err != nil || len(data) == 0` of the storage read"})
+			}
+		}
+	}
+	if n == 0 {
+		c.Anchor(rule, "a reader that returns a fresh entry when nothing is stored")
+	}
+}
